@@ -163,11 +163,17 @@ func toInt(v any) int {
 }
 
 // Mono is the monolithic resolver: a single server owning all of D.
-type Mono struct{ U *Universe }
+type Mono struct {
+	U     *Universe
+	Event int // subscription event index
+}
 
 func (m Mono) Resolve(pt *gast.Definition, parent Obj, f *gast.Field, args map[string]any, path []any) (any, error) {
 	t := m.U.S.Type(pt.Name)
 	if root, ok := m.U.Root[pt.Name]; ok && parent["__root"] == true {
+		if pt.Name == "Subscription" {
+			return EventValue(root, f.Name, m.Event), nil
+		}
 		return m.U.fieldValue(t, root, f.Name, args, m.U.monoInput(t, root))
 	}
 	return m.U.fieldValue(t, parent, f.Name, args, m.U.monoInput(t, parent))
